@@ -48,11 +48,13 @@ PY = sys.executable or '/venv/bin/python'
 F1_V0 = (
     'M1 DEFINITIONS AUTOMATIC TAGS ::= BEGIN\n'
     'Color ::= ENUMERATED { red(0), green(1), blue(5) }\n'
-    'Num ::= INTEGER (0..255)\n'
+    'Num ::= INTEGER (0..255)  \n'
     'Any ::= SEQUENCE { kind INTEGER, body ANY DEFINED BY kind }\n'
     'END\n')
 
-# the edited f1: same type names, different meaning (BER: blue is 6; UPER: Num is 16 bits wide)
+# the edited f1: same type names, different meaning (BER: blue is 6; UPER: Num is 16 bits wide), the SAME
+# byte length (two blanks after the range above), and toggle_f1 preserves the modification time: an edit
+# that a cache keyed on file metadata instead of file contents cannot see
 F1_V1 = (
     'M1 DEFINITIONS AUTOMATIC TAGS ::= BEGIN\n'
     'Color ::= ENUMERATED { red(0), green(1), blue(6) }\n'
@@ -65,10 +67,16 @@ F1_V1 = (
 F2 = (
     'M2 DEFINITIONS AUTOMATIC TAGS ::= BEGIN\n'
     'Flag ::= BOOLEAN\n'
+    'Num ::= INTEGER (0..15)\n'
     'Pair ::= SEQUENCE { a INTEGER (0..7), b Flag }\n'
     'END\n'
     'M1 DEFINITIONS AUTOMATIC TAGS ::= BEGIN\n'
     'Num ::= INTEGER (0..7)\n'
+    'END\n'
+    # Num is now defined in three modules of [f1, f2] / [f2, f1]: a name defined more than once is not
+    # reachable through Specification.types, and the count (odd / even) must not matter
+    'M3 DEFINITIONS AUTOMATIC TAGS ::= BEGIN\n'
+    'Num ::= BOOLEAN\n'
     'END\n')
 
 # file-boundary collision: compile_files parses '\n'.join-like concatenation (a newline is
@@ -137,9 +145,79 @@ def f1_version_of(d):
 
 def toggle_f1(d):
     v = 1 - f1_version_of(d)
-    with open(os.path.join(d, 'f1.asn'), 'w', newline='') as f:
+    path = os.path.join(d, 'f1.asn')
+    st = os.stat(path)
+    with open(path, 'w', newline='') as f:
         f.write(F1_V1 if v else F1_V0)
+    os.utime(path, ns=(st.st_atime_ns, st.st_mtime_ns))      # same size, same mtime, other contents
     return v
+
+
+# --------------------------------------------------------------------------------------
+# one absolute path for the working directory of every step of a history
+# --------------------------------------------------------------------------------------
+# States are materialised by copying directories, so the same logical working directory lives
+# at a different absolute path in every transition.  Anything in the library keyed on absolute
+# file names would then never meet its own earlier entries and the exploration would silently
+# lose that behaviour.  Children therefore enter their copy through a private mount namespace
+# in which it is bind-mounted at FIXED.  Where that is not permitted the plain chdir is used
+# (and the evidence says so: stats.workdir_fixed_path / workdir_plain_path).
+
+FIXED = '/tmp/asn1v-c17-workdir'     # (not tempfile.gettempdir(): that probes the directory with a random file)
+_NS = {'state': None, 'libc': None}
+_CLONE_NEWNS, _MS_BIND, _MS_REC, _MS_PRIVATE, _MNT_DETACH = 0x00020000, 0x1000, 0x4000, 1 << 18, 2
+
+
+def enter(w):
+    """chdir into directory w through the fixed absolute path; returns the path actually used.
+    Only ever called in forked children."""
+    if _NS['state'] is None:
+        try:
+            import ctypes
+            libc = ctypes.CDLL(None, use_errno=True)
+            if libc.unshare(_CLONE_NEWNS) != 0 or libc.mount(b'none', b'/', None, _MS_REC | _MS_PRIVATE, None) != 0:
+                raise OSError('unshare')
+            os.makedirs(FIXED, exist_ok=True)
+            _NS['state'], _NS['libc'] = True, libc
+        except Exception:
+            _NS['state'] = False
+    if _NS['state']:
+        libc = _NS['libc']
+        os.chdir('/')
+        libc.umount2(FIXED.encode(), _MNT_DETACH)
+        if libc.mount(os.fsencode(w), FIXED.encode(), None, _MS_BIND, None) == 0:
+            os.chdir(FIXED)
+            return FIXED
+    os.chdir(w)
+    return w
+
+
+def leave(elsewhere):
+    os.chdir(elsewhere)
+    if _NS['state']:
+        _NS['libc'].umount2(FIXED.encode(), _MNT_DETACH)
+
+
+def fixed_path_available():
+    """Probe (in a throw-away child) whether enter() can use the fixed path here."""
+    pid = os.fork()
+    if pid == 0:
+        d = tempfile.mkdtemp(prefix='nsprobe-')
+        try:
+            ok = enter(d) == FIXED
+            leave('/')
+        except BaseException:
+            ok = False
+        finally:
+            shutil.rmtree(d, ignore_errors=True)
+        os._exit(0 if ok else 1)
+    return os.waitpid(pid, 0)[1] == 0
+
+
+def in_fixed(w, cmd):
+    """Wrap a command line so that it runs with w bind-mounted at FIXED as its working directory."""
+    return ['unshare', '-m', '--propagation', 'private', 'sh', '-c',
+            'mkdir -p "$2" && mount --bind "$1" "$2" && cd "$2" && shift 2 && exec "$@"', 'sh', w, FIXED] + list(cmd)
 
 
 def mkcall(lst, codec='ber', ne=False, adb=False):
@@ -470,7 +548,7 @@ def fork_records(fn, args, scratch, wall=1800, mem=None):
 
 
 def _calls_child(emit, workdir, calls, budget_sig):
-    os.chdir(workdir)
+    enter(workdir)
     for c in calls:
         out = do_call(c, budget_sig=budget_sig)
         release()
@@ -527,6 +605,15 @@ def _strace_cmd(logpath, classes, inject, call):
     return cmd
 
 
+_FIXED_OK = [None]
+
+
+def _wrap(w, cmd):
+    if _FIXED_OK[0] is None:
+        _FIXED_OK[0] = fixed_path_available()
+    return in_fixed(w, cmd) if _FIXED_OK[0] else cmd
+
+
 def parse_strace(logpath):
     """-> [(pid, syscall, argument text)] in log order (resumed halves dropped)."""
     out = []
@@ -547,7 +634,7 @@ def interesting(sc, args):
 
 def descriptor(sc, args):
     """What identifies the call independently of the run: the syscall and its path / size arguments."""
-    a = re.sub(r'"/[^"]*/w/', '"', args)
+    a = re.sub(r'"/[^"]*/w/', '"', args).replace('"' + FIXED + '/', '"')
     a = re.sub(r'\s*=\s*[-?\w<>. ()]+$', '', a)
     a = re.sub(r'"[0-9a-f]{2}/[0-9a-f]{2}/[0-9a-f]+\.val"', '"<val>"', a)
     a = re.sub(r'[0-9a-f]{2}/[0-9a-f]{2}/[0-9a-f]{20,}\.val', '<val>', a)
@@ -563,7 +650,7 @@ def census(workdir, call, scratch):
         w = os.path.join(d, 'w')
         shutil.copytree(workdir, w)
         log = os.path.join(d, 'log')
-        p = subprocess.run(_strace_cmd(log, MUTATING, None, call), cwd=w, env=child_env(),
+        p = subprocess.run(_wrap(w, _strace_cmd(log, MUTATING, None, call)), cwd=w, env=child_env(),
                            capture_output=True, text=True, timeout=3600)
         if p.returncode != 0 or not p.stdout.startswith('{'):
             raise RuntimeError('strace dry run failed rc=%s: %s' % (p.returncode, p.stderr[-500:]))
@@ -587,7 +674,7 @@ def crash_run(w, call, sc, n, scratch):
     fd, log = tempfile.mkstemp(prefix='strace-', dir=scratch)
     os.close(fd)
     try:
-        subprocess.run(_strace_cmd(log, [sc], (sc, n), call), cwd=w, env=child_env(),
+        subprocess.run(_wrap(w, _strace_cmd(log, [sc], (sc, n), call)), cwd=w, env=child_env(),
                        capture_output=True, text=True, timeout=3600)
         calls = parse_strace(log)
         with open(log, errors='replace') as f:
